@@ -55,7 +55,10 @@ Quiet == comp' = {} /\ uni' = <<>>
 \* ---------------------------------------------------------------- client
 \* RFC 9051 5.5: do not pipeline commands whose untagged data could be confused.
 Unambiguous(k, a) ==
-  /\ k \in {"SELECT", "FETCH", "SEARCH", "EXPUNGE", "LIST", "LOGIN", "UNSELECT", "LOGOUT"} => PendingOf(k) = {}
+  /\ k \in {"SELECT", "LOGIN", "UNSELECT", "LOGOUT"} => PendingOf(k) = {}
+  \* two commands with the same kind of untagged data may be in flight only because the server answers
+  \* them in the order sent (see Tagged): their data then belongs to the oldest one
+  /\ k \in {"FETCH", "SEARCH", "EXPUNGE", "LIST"} => Cardinality(PendingOf(k)) <= 1
   /\ k = "STATUS" => \A i \in PendingOf("STATUS") : cmds[i].arg # a
   \* state-changing commands are not pipelined with commands that depend on the state
   /\ k \in {"SELECT", "UNSELECT", "LOGOUT", "LOGIN"} => PendingIds = {}
@@ -167,6 +170,8 @@ Complete(i, st) ==
 Tagged(i, st) ==
   /\ alive /\ i \in PendingIds /\ st \in {"OK", "NO", "BAD"}
   /\ st = "OK" => OkAllowed(i)
+  \* commands with the same kind of untagged data are completed in the order they were sent
+  /\ cmds[i].kind \in {"FETCH", "SEARCH", "EXPUNGE", "LIST"} => \A j \in PendingOf(cmds[i].kind) : i <= j
   \* BAD means the command was not understood: whether a selected mailbox survives a BAD SELECT is not
   \* settled by the RFC, and a conformant server has no reason to answer BAD to a well-formed SELECT
   /\ ~(st = "BAD" /\ cmds[i].kind = "SELECT" /\ cstate = "selected")
